@@ -42,7 +42,11 @@ EXPLANATION = (
     "option and calls another method of its object accepting the same option passes it on (rtol / tol / failure_probability not "
     "silently replaced by the callee's default); R-%(p)s-96 a public function or method does not write into an argument "
     "(augmented assignment, item / attribute store, out=, inplace=True on the parameter or an np.asarray view of it; a parameter "
-    "that is re-bound in the function is exempt) - the same array handed over twice must give the same result twice.")
+    "that is re-bound in the function is exempt) - the same array handed over twice must give the same result twice; "
+    "R-%(p)s-97 the element type of a result or work array is not taken from ONE operand (`x.dtype` read from a value: "
+    "np.zeros(..., dtype=s11.dtype), .astype(first.dtype)) - an integer-typed first operand then truncates the others; "
+    "R-%(p)s-98 a public method reaches no explicit raise / assert after it has already stored to an attribute of its object "
+    "(a refused call leaves the object changed).")
 
 
 def anchored_modules(prog, prop):
@@ -254,6 +258,35 @@ def argument_writes(fi):
     return res
 
 
+# ------------------------------------------------------------------------------------------------ R-xx-97 / 98
+ACCEPTED_DTYPE_READS = {("pylife.vmap.vmap_export", "_create_system_dataset"): "the element type of the dataset object that is being written itself"}
+ACCEPTED_STATE_BEFORE_RAISE = {("pylife.mesh.gradient", "gradient_of"): "value_key is (re)set on every call before the frame is inspected; a refused call leaves only that key"}
+
+
+def operand_dtype_reads(fn_node):
+    """[(node, text)]: `<value>.dtype` read from a value (not np.dtype(...), not a class attribute definition)"""
+    out = []
+    for n in ast.walk(fn_node):
+        if isinstance(n, ast.Attribute) and n.attr == "dtype" and isinstance(n.ctx, ast.Load):
+            b = n.value
+            if isinstance(b, ast.Name) and b.id in ("np", "numpy", "pd"):
+                continue
+            par = getattr(n, "_parent", None)
+            # only where it decides the type of something else: dtype= keyword, astype(...), np.zeros/empty/full/array(..., dtype)
+            use = None
+            if isinstance(par, ast.keyword) and par.arg == "dtype":
+                use = "dtype="
+            elif isinstance(par, ast.Call) and isinstance(par.func, ast.Attribute) and par.func.attr in ("astype", "view") and n in par.args:
+                use = "." + par.func.attr + "()"
+            elif isinstance(par, ast.Call) and (call_name(par) or "") in ("np.zeros", "np.empty", "np.ones", "np.full", "np.array", "np.asarray") and n in par.args:
+                use = call_name(par)
+            elif isinstance(par, ast.Assign):
+                use = "kept in a local"
+            if use:
+                out.append((n, "%s (%s)" % (norm_text(n), use)))
+    return out
+
+
 # ------------------------------------------------------------------------------------------------ R-xx-92
 def vectorize_without_otypes(fn_node):
     out = []
@@ -281,6 +314,10 @@ def selftest():
     p3 = statefam.mini("def f(x, y, z, out=None):\n    x *= 2\n    v = np.asarray(y)\n    v[0] = 1\n    z = np.array(z)\n    z += 1\n    return x\n")
     if len(argument_writes(p3.functions["ex:f"])) != 2:
         raise AnalysisError("common rule families: argument-write example not matched")
+    from .frontend import set_parents as _sp
+    ex4 = _sp(ast.parse("def f(s11, s22):\n    a = np.zeros(s11.shape + (3, 3), dtype=s11.dtype)\n    b = s22.astype(np.float64)\n    return a, np.dtype('int32')\n")).body[0]
+    if len(operand_dtype_reads(ex4)) != 1:
+        raise AnalysisError("common rule families: dtype example not matched")
     p = statefam.mini(_EX2)
     if len(sibling_defaults(p.classes["ex:W"])) != 1 or len(dropped_options(p, p.functions["ex:W.cycles"])) != 1:
         raise AnalysisError("common rule families: default / option example not matched")
@@ -295,7 +332,7 @@ def run(ctx, prop):
     classes = [ci for k, ci in sorted(prog.classes.items()) if ci.module.name in names]
     if not funcs:
         raise AnalysisError("no function found in the anchored modules of %s" % prop)
-    r90, r91, r92, r93, r94, r95, r96 = ("R-%s-%d" % (prop, i) for i in (90, 91, 92, 93, 94, 95, 96))
+    r90, r91, r92, r93, r94, r95, r96, r97, r98 = ("R-%s-%d" % (prop, i) for i in (90, 91, 92, 93, 94, 95, 96, 97, 98))
     # ---- 90
     ctx.rule(r90, floor=1, what="no new absolute tolerance on data in the anchored files")
     n_acc = 0
@@ -380,3 +417,24 @@ def run(ctx, prop):
             ctx.violated(fi, st, "%s writes into its argument `%s` (%s: %s): the caller's object is changed, a second call with the same "
                          "object works on other data" % (fi.qualname, p, how, norm_text(st)[:60]), text="write into argument %s of %s" % (p, fi.qualname), rule=r96)
     ctx.holds(prop + ":anchored files", None, "%d functions scanned, %d accepted instance(s)" % (len(funcs), n_acc), rule=r96)
+    # ---- 97
+    ctx.rule(r97, floor=1, what="element types are not taken from one operand")
+    for fi in funcs:
+        if (fi.module.name, fi.name) in ACCEPTED_DTYPE_READS:
+            continue
+        for node, text in operand_dtype_reads(fi.node):
+            ctx.violated(fi, node, "%s takes an element type from one operand: %s - when that operand is integer typed (a literal 0, an "
+                         "integer column) the values of the other operands are truncated to integers" % (fi.qualname, text),
+                         text="element type from an operand in %s" % fi.qualname, rule=r97)
+    ctx.holds(prop + ":anchored files", None, "%d functions scanned" % len(funcs), rule=r97)
+    # ---- 98
+    ctx.rule(r98, floor=1, what="public methods reject input before they change their object")
+    for fi in funcs:
+        if fi.cls is None or fi.name.startswith("_") or (fi.module.name, fi.name) in ACCEPTED_STATE_BEFORE_RAISE:
+            continue
+        hits = statefam.state_before_raise(prog, fi)
+        for r, st, attr in hits[:1]:
+            ctx.violated(fi, r, "%s can reach `%s` after it has already changed self.%s (`%s`): a refused call leaves the object in "
+                         "another state than it found it" % (fi.qualname, norm_text(r)[:60], attr, norm_text(st)[:50]),
+                         text="rejection after a change of self.%s in %s" % (attr, fi.qualname), rule=r98)
+    ctx.holds(prop + ":anchored files", None, "%d functions scanned" % len(funcs), rule=r98)
